@@ -347,22 +347,23 @@ fn run_scenario<H: ArchH>(rep: &mut Report, p: &mut Prng, sc: &Scenario, id: u64
                 let k = frames_got.len();
                 let prefix_ok = k <= want_items.len() && frames_got.iter().zip(want_items.iter()).all(|(a, b)| *a == b);
                 let tail = got.get(k).cloned().unwrap_or_default();
-                let tail_ok = if tail == "none" {
-                    k + 1 == want_items.len()
+                let tail_ok = if tail == "none" && k + 1 == want_items.len() {
+                    true
                 } else if let Some(a) = tail.strip_prefix("err:stack:") {
                     u64::from_str_radix(a, 16).map(|a| a >= cut).unwrap_or(false)
                 } else {
                     // other errors are acceptable only where a rule-based step is not involved:
                     // scenarios without DWARF, and steps through a function whose frame is too
                     // large for a cacheable rule (such rows take the generic path, whose
-                    // failures end in the frame pointer fallback)
+                    // failures end in the frame pointer fallback - which reports its own error
+                    // or, with a null frame pointer register, the end of the chain)
                     let failing_fn_is_huge = frames_got.last().and_then(|s| u64::from_str_radix(&s[3..], 16).ok()).map_or(false, |a| {
                         let rel = a.wrapping_sub(text_avma).wrapping_sub(if frames_got.len() > 1 { 1 } else { 0 });
                         sc.funcs.iter().any(|f| {
                             rel >= f.start && rel < f.start + f.len() && f.insns.iter().any(|i| matches!(i.eff, Eff::SubSp(n) if n >= 0x10000))
                         })
                     });
-                    !judged || failing_fn_is_huge
+                    (tail != "none" && !judged) || failing_fn_is_huge
                 };
                 if !(prefix_ok && tail_ok) {
                     rep.add_finding(Finding {
